@@ -132,6 +132,17 @@ def run_scan(cases, traj=True, shards=12):
     return results, mismatches
 
 
+def run_scan_impl_only(cases, shards=12):
+    """when the model cannot be built: implementation observables only (for the search)"""
+    lines = ["%s %s" % (cid, data.hex()) for cid, data in cases]
+    gout = run_lines(os.path.join(BUILD, "harness"), ["scan", "-notraj"], lines, shards=shards)
+    results = {}
+    for l in gout:
+        o = json.loads(l)
+        results[o["id"]] = {"lex": o["lex"], "end": canon_go_end(o), "go": o}
+    return results, []
+
+
 # ------------------------------------------------------------------------------ generators
 
 ALPHA = b" \t\n\r#/*()\"\\{}[]@:,.-_01259abzAZGETPUTRLYinfo"
